@@ -244,6 +244,20 @@ class Encoded:
                     else:
                         ok = abs(complex(cv) - complex(rv)) <= tol * scale
                     if not ok:
+                        if self.interp.narrowing:
+                            # the real code rounds input-dependent data to a narrower float type in this (x64) session: the
+                            # deviation from the exact encoding is that rounding -- a violation of every "to rounding" claim
+                            pt = dict(vals)
+
+                            def replay(model, self=self, pt=pt, k=k, i=i, tol=tol):
+                                real2, ne2 = self.real_outputs(pt)
+                                rv2 = complex(real2[k][i])
+                                cv2 = complex(ne2.scalar(self.outs[k][i]))
+                                e2 = abs(rv2 - cv2) / (1.0 + abs(cv2))
+                                return {"reproduced": e2 > 1e-10, "detail": f"x64 session: the code converts input-dependent data {self.interp.narrowing[0][0]} -> {self.interp.narrowing[0][1]}; result {rv2} vs exact evaluation {cv2} (relative deviation {e2:.3g}, float64 rounding would give ~1e-16)", "inputs": pt}
+
+                            check.add(f"{what}/precision-narrowing/{k}_{'_'.join(map(str, i))}", False, [], family="no precision-narrowing conversion on the float64 data path", replay=replay)
+                            return
                         raise HarnessError(f"translator validation failed {what} output {k}{i}: encoding {cv} vs real {rv}")
             check.validated += 1
 
